@@ -323,6 +323,8 @@ SHAPES = [("rect", 4.0, 2.0, 1.0, 1.0, 0), ("rect", 4.0, 2.0, 1.0, 1.0, math.pi 
           ("group", [("rect", 2.0, 2.0, -1.0, 0.0, 0), ("circle", 1.0, 2.5, 2.5)]),
           ("lanelets", [(-2.0, 0.0, 2.0, 2.0), (2.0, 0.0, 5.0, 2.0)]), ("lanelets", [(0.0, -1.0, 3.0, 1.5)]),
           ("rect", 4.0, 4.0, 1.0, 0.5, math.pi / 4), ("rect", 6.0, 1.0, 0.5, 1.0, -1.2), ("rect", 2.0, 5.0, 0.0, 0.0, math.pi / 2),
+          # long rectangles at very small non-zero orientations (and just short of a full turn)
+          ("rect", 120.0, 3.5, 10.0, 1.0, 4e-5), ("rect", 120.0, 3.5, 10.0, 1.0, -2e-5), ("rect", 80.0, 2.0, -5.0, 0.5, 2 * math.pi - 3e-5),
           # open rings whose last vertex is the only extreme point in some direction ("house" with the apex last; a kite pointing left)
           ("poly", [[-1.0, -1.0], [3.0, -1.0], [3.0, 1.0], [-1.0, 1.0], [1.0, 4.0]]), ("poly", [[2.0, 0.0], [3.0, 1.5], [2.0, 3.0], [-3.0, 1.5]]),
           ("group", [("poly", [[0.0, 0.0], [2.0, 0.0], [2.0, 2.0], [0.0, 2.0], [1.0, 3.5]]), ("rect", 1.0, 1.0, 4.0, 0.0, 0)])]
@@ -374,6 +376,12 @@ def probe_points(sh):
             for f in (0.97, 1.03):
                 dx, dy = f * sx * l / 2, f * sy * w / 2
                 out.append((cx + c * dx - s_ * dy, cy + s_ * dx + c * dy))
+        # 1 mm inside / outside the long edges, near their ends (where a slightly wrong orientation shows first)
+        for ex in (-0.49, 0.0, 0.49):
+            for sy in (1, -1):
+                for d in (-1e-3, 1e-3):
+                    dx, dy = ex * l, sy * (w / 2 + d)
+                    out.append((cx + c * dx - s_ * dy, cy + s_ * dx + c * dy))
     elif k == "circle":
         r, cx, cy = sh[1:]
         for i in range(8):
